@@ -385,13 +385,13 @@ class Replayer:
     def __init__(self):
         self.rb = None
 
-    def replay(self, harness, values, release=False):
+    def replay(self, harness, values, release=False, raw=False):
         import kani
         import specs_k
         if self.rb is None:
             self.rb = kani.ReplayBuild([h for h in specs_k.ALL])
             self.rb.prepare()
-        return self.rb.replay(harness, values, release=release)
+        return self.rb.replay(harness, values, release=release, raw=raw)
 
     def close(self):
         if self.rb:
